@@ -255,8 +255,14 @@ fn wild_case() -> impl Strategy<Value = C08Case> {
         proptest::collection::vec((any::<u16>(), any::<u16>(), any::<u16>()), 64),
         any::<u16>(),
     )
-        .prop_map(|(mut base, raws, lm, regime, sp, shape)| {
-            let mut updates = crate::gen::alpha_list(&base.spec, &raws);
+        .prop_map(|(base, raws, lm, regime, sp, shape)| wild_from_raw(base, &raws, lm, regime, &sp, shape))
+}
+
+/// the pure construction behind the wild generator (also used by the fuzz target)
+pub fn wild_from_raw(mut base: ProblemCase, raws: &[Vec<u16>], lm: LmCfg, regime: u16, sp: &[(u16, u16, u16)], shape: u16) -> C08Case {
+    {
+        {
+            let mut updates = crate::gen::alpha_list(&base.spec, raws);
             // degenerate shapes: N < M, N = 1
             let m = base.spec.m();
             match pick(shape, 8) {
@@ -331,7 +337,8 @@ fn wild_case() -> impl Strategy<Value = C08Case> {
             }
             let with_stats = shape % 2 == 0;
             C08Case { base, updates, lm, with_stats }
-        })
+        }
+    }
 }
 
 impl Property for C08 {
